@@ -5,6 +5,7 @@ import (
 	"encoding/json"
 	"flag"
 	"fmt"
+	"hash/fnv"
 	"os"
 	"reflect"
 	"sort"
@@ -13,6 +14,7 @@ import (
 	"sync/atomic"
 	"time"
 
+	"github.com/antchfx/xpath"
 	"xvh/vdoc"
 	"xvh/xast"
 )
@@ -36,6 +38,8 @@ type Case struct {
 	Ns  NsMap             `json:"ns,omitempty"`
 	Nav string            `json:"nav,omitempty"`
 	Tag string            `json:"tag,omitempty"`
+	// kind "hash": the identity key the specification (XHash.tla) assigns to every node
+	Keys []string `json:"keys,omitempty"`
 }
 
 // NsMap is a namespace map; TLC writes the empty function as [].
@@ -266,6 +270,10 @@ func (w *worker) runCase(line int, raw []byte) {
 	kind := c.K
 	if kind == "" {
 		kind = w.kind
+	}
+	if kind == "hash" {
+		w.runHash(line, raw, &c)
+		return
 	}
 	// the model marks node-set cases "sel-set"; a check that requires more (each node once, document
 	// order) says so on the command line
@@ -626,3 +634,49 @@ func cmdPrint(args []string) {
 }
 
 func cmdNavcheck(args []string) { fmt.Fprintln(os.Stderr, "navcheck: not built yet"); os.Exit(2) }
+
+// runHash: getHashCode (through the hook VerifHashCode) of every node must be the FNV-64a hash of the key
+// XHash.tla assigns to the node, from both navigator flavours, and no two nodes of a document may hash alike.
+func (w *worker) runHash(line int, raw []byte, c *Case) {
+	if len(c.Keys) != c.D.Len() {
+		fmt.Fprintf(os.Stderr, "xvh: line %d: %d keys for %d nodes\n", line, len(c.Keys), c.D.Len())
+		os.Exit(2)
+	}
+	seen := map[uint64]int{}
+	var evals int64
+	for i := 1; i <= c.D.Len(); i++ {
+		h := fnv.New64a()
+		h.Write([]byte(c.Keys[i-1]))
+		want := h.Sum64()
+		for _, plain := range []bool{false, true} {
+			var got uint64
+			var o Outcome
+			func() {
+				defer guard(&o)
+				got = xpath.VerifHashCode(navAt(c.D, i, plain))
+			}()
+			evals++
+			fail := ""
+			switch {
+			case o.Panic != "":
+				fail = "panic:" + o.Panic
+			case got != want:
+				fail = "hash-key"
+			}
+			if fail == "" && !plain {
+				if j, dup := seen[got]; dup {
+					fail = fmt.Sprintf("hash-collision with node %d", j)
+				}
+				seen[got] = i
+			}
+			if fail != "" {
+				o.Msg = fmt.Sprintf("getHashCode=%#x, fnv64a(key)=%#x", got, want)
+				wj, _ := json.Marshal(c.Keys[i-1])
+				w.report(Mismatch{Line: line, Kind: "hash", Expr: "getHashCode", Render: "-", Ctx: i, Fail: fail, Want: wj, Got: o, Via: "VerifHashCode", Case: raw})
+			}
+		}
+	}
+	atomic.AddInt64(&w.st.Cases, 1)
+	atomic.AddInt64(&w.st.Evaluations, evals)
+	atomic.AddInt64(&w.st.Nontrivial, evals)
+}
